@@ -676,9 +676,14 @@ def check_region_files(spec: dict, sub: str = "files", beyond_known: bool = Fals
                 nontrivial = True
 
             # --- write
-            path = os.path.join(tmp, f"region{index + 1}.gbk")
+            # (as antismash.main calls it: output directory, default file name)
+            present = set(os.listdir(tmp))
             try:
-                region.write_to_genbank(filename=path, record=shared)
+                region.write_to_genbank(directory=tmp, record=shared)
+                created = sorted(set(os.listdir(tmp)) - present)
+                if len(created) != 1:
+                    raise FileNotFoundError(f"{len(created)} new files in the output directory, "
+                                            f"present: {sorted(os.listdir(tmp))}")
             except Exception as err:  # pylint: disable=broad-except
                 detail = {"exception": type(err).__name__, "message": str(err)[:300]}
                 detail.update(info)
@@ -687,6 +692,7 @@ def check_region_files(spec: dict, sub: str = "files", beyond_known: bool = Fals
                     shared = record.to_biopython()
                     shared_text = genbank_text(shared)
                 continue
+            path = os.path.join(tmp, created[0])
             if shared_mode:
                 after = genbank_text(shared)
                 if after != shared_text:
@@ -707,9 +713,10 @@ def check_region_files(spec: dict, sub: str = "files", beyond_known: bool = Fals
             elif judgement.repairable and bio is not None:
                 classes.append("reload_after_repair")
                 from Bio import SeqIO
-                fixed = os.path.join(tmp, f"region{index + 1}.repaired.gbk")
+                fixed = os.path.join(tmp, "repaired")       # kept out of the listing compared above
                 SeqIO.write([repaired_record(bio, judgement, parent, rmap)], fixed, "genbank")
                 violations.extend(judge_reload(fixed, want, rmap.size, judgement.ties, info, "_after_repair"))
+                os.unlink(fixed)
         after_all = genbank_text(record.to_biopython())
         if after_all != parent_text:
             violations.append(("parent_changed", {"changes": feature_changes(parent_text, after_all)[:8]}))
